@@ -91,19 +91,60 @@ def boolean_op(rep, F):
                 rep.ok("R4.2", "op:" + meth)
             else:
                 rep.bad("R4.2", "op:" + meth, "%s is %s" % (meth, r[:80]), where=f.loc())
-        ex = Symex(F, inline_crates=(), no_inline=[])
-        fp = F.impl_method(BO + "BooleanOps", r"polygon::Polygon<T>$", None, "rings", crates=("geo",))
-        r = bare([p for p in opaque(F).run(fp) if p.kind == "ret"][0].ret)
-        if r == "chain(once(exterior(a1)), interiors(a1))":
-            rep.ok("R4.2", "rings:Polygon")
-        else:
-            rep.bad("R4.2", "rings:Polygon", "Polygon::rings is %s" % r[:100], where=fp.loc())
-        fm = F.impl_method(BO + "BooleanOps", r"multi_polygon::MultiPolygon<T>$", None, "rings", crates=("geo",))
-        r = bare([p for p in opaque(F).run(fm) if p.kind == "ret"][0].ret)
-        if re.match(r"^flat_map\(iter\(a1\), fn\(.*BooleanOps::rings", r) or r.startswith("flat_map(iter(a1), "):
-            rep.ok("R4.2", "rings:MultiPolygon")
-        else:
-            rep.bad("R4.2", "rings:MultiPolygon", "MultiPolygon::rings is %s" % r[:100], where=fm.loc())
+        # rings(): decided on concrete shapes (the iterator a shape yields is drained step by step): a polygon yields its exterior, then its
+        # interiors in order; a multipolygon the rings of its members in member order.  unary_union reads its fill rule off the FIRST ring.
+        from .. import citer
+        GT = "geo_types::geometry::"
+
+        def vec(items):
+            return ("call", "vec!", (("array", tuple(items)),))
+
+        def ring(name):
+            return ("opaque", name)
+
+        def poly(k, nh):
+            return ("adt", GT + "polygon::Polygon", "Polygon", (ring("E%d" % k), vec([ring("H%d%d" % (k, j)) for j in range(nh)])))
+
+        def names(items):
+            out = []
+            for it in items:
+                m = re.search(r"\b([EH]\d+)\b", show(it))
+                out.append(m.group(1) if m else show(it)[:40])
+            return out
+        shapes = [("Polygon", r"polygon::Polygon<T>$", poly(0, 2), ["E0", "H00", "H01"]),
+                  ("Polygon/no-holes", r"polygon::Polygon<T>$", poly(0, 0), ["E0"]),
+                  ("MultiPolygon", r"multi_polygon::MultiPolygon<T>$", ("adt", GT + "multi_polygon::MultiPolygon", "MultiPolygon", (vec([poly(0, 1), poly(1, 0), poly(2, 2)]),)),
+                   ["E0", "H00", "E1", "E2", "H20", "H21"]),
+                  ("MultiPolygon/empty", r"multi_polygon::MultiPolygon<T>$", ("adt", GT + "multi_polygon::MultiPolygon", "MultiPolygon", (vec([]),)), [])]
+        for key, pat, arg, want in shapes:
+            f = F.impl_method(BO + "BooleanOps", pat, None, "rings", crates=("geo",))
+            ex = Symex(F, concrete_iters=True, loop_bound=10, inline_crates=("geo", "geo_types"), max_depth=12)
+            ps = [p for p in ex.run(f, args=[("&", arg)]) if p.kind != "cut"]
+            if len(ps) != 1 or ps[0].kind != "ret" or ps[0].pc:
+                rep.bad("R4.2", "rings:%s" % key, "rings() of a concrete %s is not a single iterator value (%d paths)" % (key, len(ps)), where=f.loc())
+                continue
+            try:
+                got = names(citer.drain_pure(ex, ps[0].st, ps[0].ret))
+            except (citer.NotConcrete, Unanalysable) as e:
+                try:
+                    # adaptors with closures (flat_map over members): step with the general driver
+                    got, cur, st = [], ps[0].ret, ps[0].st
+                    for _ in range(64):
+                        res = list(citer.step(ex, st, cur))
+                        if len(res) != 1:
+                            raise Unanalysable("forking iterator")
+                        st, it, cur = res[0]
+                        if it is None:
+                            break
+                        got.append(it)
+                    got = names(got)
+                except (citer.NotConcrete, Unanalysable) as e2:
+                    rep.bad("R4.2", "rings:%s" % key, "rings() of a concrete %s cannot be drained: %s" % (key, e2), where=f.loc())
+                    continue
+            if got == want:
+                rep.ok("R4.2", "rings:%s" % key, sample=got)
+            else:
+                rep.bad("R4.2", "rings:%s" % key, "rings() yields %s, expected %s (each member's exterior first, then its interiors, members in order)" % (got, want), where=f.loc())
     except (KeyError, Unanalysable, IndexError) as e:
         rep.bad("R4.2", "anchor", str(e))
 
